@@ -267,6 +267,35 @@ fn conversions(emit: &mut dyn FnMut(Value), rng: &mut Rng, nsamples: usize) {
     }
     analyse(emit, "stat64::from(SetattrIn)", &sa_in, &ins, &st_out, &outs);
 
+    // EntryOut::from(Entry): the reply structure of every entry-carrying answer
+    let en_in = ["inode", "generation", "entry_timeout.secs", "attr_timeout.secs", "entry_timeout.nanos", "attr_timeout.nanos",
+        "attr_flags", "attr.st_ino", "attr.st_size"];
+    let en_out = [("nodeid", 8), ("generation", 8), ("entry_valid", 8), ("attr_valid", 8), ("entry_valid_nsec", 4), ("attr_valid_nsec", 4),
+        ("attr_flags", 4), ("attr_ino", 8), ("attr_size", 8)];
+    let (mut ins, mut outs) = (Vec::new(), Vec::new());
+    for _ in 0..nsamples {
+        let mut v = fresh(rng, en_in.len());
+        v[4] %= 1_000_000_000;
+        v[5] %= 1_000_000_000;
+        v[6] &= 0xffff_ffff;
+        let mut st: libc::stat64 = unsafe { std::mem::zeroed() };
+        st.st_ino = v[7];
+        st.st_size = v[8] as i64;
+        let e = fuse_backend_rs::api::filesystem::Entry {
+            inode: v[0],
+            generation: v[1],
+            attr: st,
+            attr_flags: v[6] as u32,
+            attr_timeout: std::time::Duration::new(v[3], v[5] as u32),
+            entry_timeout: std::time::Duration::new(v[2], v[4] as u32),
+        };
+        let o: fuse_backend_rs::abi::fuse_abi::EntryOut = e.into();
+        outs.push(vec![o.nodeid, o.generation, o.entry_valid, o.attr_valid, o.entry_valid_nsec as u64, o.attr_valid_nsec as u64,
+            o.attr.flags as u64, o.attr.ino, o.attr.size]);
+        ins.push(v);
+    }
+    analyse(emit, "EntryOut::from(Entry)", &en_in, &ins, &en_out, &outs);
+
     // Kstatfs::from(statvfs64)
     let sv_in = ["f_bsize", "f_frsize", "f_blocks", "f_bfree", "f_bavail", "f_files", "f_ffree", "f_favail", "f_fsid", "f_flag", "f_namemax"];
     let ks_out = [("blocks", 8), ("bfree", 8), ("bavail", 8), ("files", 8), ("ffree", 8), ("bsize", 4), ("namelen", 4), ("frsize", 4), ("padding", 4)];
